@@ -1,5 +1,6 @@
 (* Lemmas about Model/OpcodeSelect.v (backend/src/opcode_select.rs). *)
-From Aelys Require Import Base.Tactics Extracted.ValueConsts Extracted.Opcodes Model.Value
+From Aelys Require Import Base.Tactics Extracted.ValueConsts Extracted.Opcodes Extracted.OpcodeSelectTables
+  Extracted.DispatchArms Model.Value
   Proofs.ValueProofs Model.VmArith Proofs.VmArithProofs Model.OpcodeSelect.
 Local Open Scope N_scope.
 
@@ -34,7 +35,7 @@ Proof. destruct t; reflexivity. Qed.
    this includes the five shift / bitwise operators) *)
 Lemma select_guarded_all (op : binop) (l r : rtype) :
   is_certain l && is_certain r = false ->
-  is_unchecked_opcode (select_opcode op l r) = false.
+  is_specialised_opcode (select_opcode op l r) = false.
 Proof.
   intros Hc. rewrite select_flags.
   assert (G : needs_guard l || needs_guard r = true \/
@@ -52,7 +53,7 @@ Qed.
    and no guard is needed *)
 Lemma select_bitwise_exact (op : binop) (l r : rtype) :
   is_bitwise op = true ->
-  is_unchecked_opcode (select_opcode op l r) =
+  is_specialised_opcode (select_opcode op l r) =
   is_integer (unwrap_uncertain l) && is_integer (unwrap_uncertain r)
   && negb (needs_guard l || needs_guard r).
 Proof.
@@ -72,14 +73,14 @@ Definition select_guarded_int_opcode_old (op : binop) : opcode :=
   | o => select_guarded_int_opcode o
   end.
 Lemma old_guarded_int_selection_was_unchecked :
-  is_unchecked_opcode (select_guarded_int_opcode_old OpShl) = true /\
-  is_unchecked_opcode (select_guarded_int_opcode OpShl) = false /\
+  is_specialised_opcode (select_guarded_int_opcode_old OpShl) = true /\
+  is_specialised_opcode (select_guarded_int_opcode OpShl) = false /\
   select_opcode OpShl (RUncertain RI64) (RUncertain RI64) = O_Shl.
 Proof. vm_compute. repeat split; reflexivity. Qed.
 
 (* a typed (unchecked) opcode is only ever selected for int/int or float/float static types *)
 Lemma select_typed_needs_static_types (op : binop) (l r : rtype) :
-  is_unchecked_opcode (select_opcode op l r) = true ->
+  is_specialised_opcode (select_opcode op l r) = true ->
   (is_integer (unwrap_uncertain l) && is_integer (unwrap_uncertain r) = true) \/
   (is_float_ty (unwrap_uncertain l) && is_float_ty (unwrap_uncertain r) = true /\ is_bitwise op = false).
 Proof.
@@ -114,49 +115,76 @@ Lemma generic_sem_ok (op : binop) : binop_sem (select_generic_opcode op) = Some 
 Proof. destruct op; reflexivity. Qed.
 
 (* ------------------------------------------------------------------ selection + VM semantics
-   When the runtime words carry the tags their static types promise, the selected opcode
-   computes what the generic opcode computes (Eq/Ne excluded: see typed_eq_* lemmas). *)
-Definition word_has_type (t : rtype) (w : N) : bool :=
-  if is_integer (unwrap_uncertain t) then is_int w
-  else if is_float_ty (unwrap_uncertain t) then is_float w
-  else true.
-
+   Since fix 7e82908 the opcode selected for ANY pair of static types computes, on ANY pair of
+   64-bit words, what the generic opcode of the operator computes: whether the static types are
+   honest no longer matters (Eq/Ne on floats: see selected_eq_sound). *)
 Definition run_selected (hv : heapview) (op : binop) (l r : rtype) (a b : N) : option vres :=
   vm_binop hv (select_opcode op l r) a b.
 
-Lemma selected_agrees_when_tags_match (hv : heapview) (op : binop) (l r : rtype) (a b : N) :
+Lemma selected_sound_all_words (hv : heapview) (op : binop) (l r : rtype) (a b : N) :
   is_eqop op = false -> a < W64 -> b < W64 ->
-  word_has_type l a = true -> word_has_type r b = true ->
   run_selected hv op l r a b = Some (run_binsem hv (generic_sem op) a b).
 Proof.
-  intros He Ha Hb Ta Tb. unfold run_selected, vm_binop, word_has_type in *.
+  intros He Ha Hb. unfold run_selected, vm_binop.
   rewrite select_flags.
-  pose proof (int_float_ty_excl (unwrap_uncertain l)) as El.
-  pose proof (int_float_ty_excl (unwrap_uncertain r)) as Er.
-  destruct (is_integer (unwrap_uncertain l)) eqn:IL, (is_float_ty (unwrap_uncertain l)) eqn:FL;
-    try discriminate;
-  destruct (is_integer (unwrap_uncertain r)) eqn:IR, (is_float_ty (unwrap_uncertain r)) eqn:FR;
-    try discriminate;
-  destruct (needs_guard l || needs_guard r);
+  destruct (is_integer (unwrap_uncertain l)), (is_float_ty (unwrap_uncertain l)),
+           (is_integer (unwrap_uncertain r)), (is_float_ty (unwrap_uncertain r)),
+           (needs_guard l || needs_guard r);
   destruct op; try discriminate; cbn [select_by_flags andb orb select_guarded_int_opcode
     select_typed_int_opcode select_guarded_float_opcode select_typed_float_opcode
     select_generic_opcode binop_sem generic_sem run_binsem]; f_equal;
   try reflexivity;
-  try (apply typed_arith_ii_agrees; assumption);
-  try (apply typed_bit_ii_agrees; assumption);
-  try (apply typed_ord_ii_agrees; [reflexivity | assumption | assumption]);
-  try (apply typed_arith_ff_agrees; assumption);
-  try (apply typed_ord_ff_agrees; [reflexivity | assumption..]);
+  try (apply typed_arith_ff_total; assumption);
+  try (apply typed_ord_ff_total; [reflexivity | assumption | assumption]);
   try (apply guarded_arith_iig_total; assumption);
+  try (apply guarded_arith_ffg_total; assumption);
   try (apply guarded_ord_iig_total; [reflexivity | assumption | assumption]);
-  try (apply guarded_arith_ffg_sound; [assumption | assumption |
-        rewrite ?(float_not_int a Ha Ta), ?(float_not_int b Hb Tb), ?andb_false_r; reflexivity]);
-  try (apply guarded_ord_ffg_sound; [reflexivity | assumption | assumption |
-        rewrite ?(float_not_int a Ha Ta), ?(float_not_int b Hb Tb), ?andb_false_r; reflexivity]).
+  try (apply guarded_ord_ffg_total; [reflexivity | assumption | assumption]).
 Qed.
 
-Lemma nonvacuous_select :
-  word_has_type RI64 (v_int 7) = true /\ word_has_type RI64 W_2_5 = false /\
-  select_opcode OpAdd RI64 RF64 = O_AddFFG /\ select_opcode OpAdd RI64 RDynamic = O_Add /\
-  select_opcode OpShl (RUncertain RI64) RI64 = O_Shl /\ select_opcode OpAdd (RUncertain RI64) RI64 = O_AddIIG.
+(* == and != : same statement when no operand is a float and int operands are the words
+   Value::int builds (the remaining cases compare IEEE == with Value ==, see eq_nan_differs) *)
+Definition canon_int (w : N) : Prop := is_int w = true -> exists x, in48 x /\ w = v_int x.
+
+Lemma selected_eq_sound (hv : heapview) (op : binop) (l r : rtype) (a b : N) :
+  is_eqop op = true -> a < W64 -> b < W64 ->
+  is_float a = false -> is_float b = false -> canon_int a -> canon_int b ->
+  run_selected hv op l r a b = Some (run_binsem hv (generic_sem op) a b).
+Proof.
+  intros He Ha Hb Fa Fb Ca Cb. unfold run_selected, vm_binop.
+  assert (G : forall o, gd_cmp_iig hv o a b = g_cmp hv o a b).
+  { intro o. destruct (is_int a) eqn:Ia; destruct (is_int b) eqn:Ib.
+    - destruct (Ca Ia) as (x & Hx & ->). destruct (Cb Ib) as (y & Hy & ->).
+      apply guarded_eq_ints; assumption.
+    - apply (guarded_eq_nonnum hv o a b Ha Hb). unfold is_num. rewrite Ib, Fb, andb_false_r. reflexivity.
+    - apply (guarded_eq_nonnum hv o a b Ha Hb). unfold is_num. rewrite Ia, Fa. reflexivity.
+    - apply (guarded_eq_nonnum hv o a b Ha Hb). unfold is_num. rewrite Ia, Fa. reflexivity. }
+  assert (T : forall o, t_cmp_ff hv o a b = g_cmp hv o a b).
+  { intro o. apply typed_eq_ff_nonfloat. rewrite Fa. reflexivity. }
+  rewrite select_flags.
+  destruct (is_integer (unwrap_uncertain l)), (is_float_ty (unwrap_uncertain l)),
+           (is_integer (unwrap_uncertain r)), (is_float_ty (unwrap_uncertain r)),
+           (needs_guard l || needs_guard r);
+  destruct op; try discriminate; cbn [select_by_flags andb orb select_guarded_int_opcode
+    select_typed_int_opcode select_guarded_float_opcode select_typed_float_opcode
+    select_generic_opcode binop_sem generic_sem run_binsem]; f_equal;
+  try reflexivity; try apply G; try apply T.
+Qed.
+
+(* ------------------------------------------------------------------ generated dispatch arms *)
+Lemma dispatch_arms_facts :
+  model_aliases_in_code = true /\ modelled_opcodes_have_arms = true /\
+  no_unchecked_accessor_in_dispatch = true.
 Proof. vm_compute. repeat split; reflexivity. Qed.
+
+Lemma nonvacuous_select :
+  select_opcode OpAdd RI64 RF64 = O_AddFFG /\ select_opcode OpAdd RI64 RDynamic = O_Add /\
+  select_opcode OpShl (RUncertain RI64) RI64 = O_Shl /\ select_opcode OpAdd (RUncertain RI64) RI64 = O_AddIIG /\
+  select_opcode OpMul RI32 RF32 = O_MulFFG /\ select_opcode OpLt RU8 RI64 = O_LtII /\
+  run_selected no_heap OpAdd RI64 RI64 W_2_5 (v_int 1) = Some (ROk W_3_5) /\
+  canon_int (v_int 5) /\ canon_int v_null.
+Proof.
+  repeat split; try (vm_compute; reflexivity).
+  - intros _. exists 5%Z. split; [unfold in48; lia | reflexivity].
+  - intro H. vm_compute in H. discriminate.
+Qed.
